@@ -6,7 +6,7 @@
    observation). Atomic operations:
      inc      lookup / a readdirplus entry: refs + 1, returns the file's number
      dec(n)   forget(n): saturating decrement (never below zero)
-     get      getattr on the number: succeeds iff refs > 0
+     get      getattr on the number: succeeds if refs > 0 (usable while referenced)
    Compound client operations are sequences of atomic ones (weaker reading: not atomic as a whole):
      readdirplus whose entry did not fit = inc, then dec(1)
      batch_forget [(ino, n1), (ino, n2), ...] = dec(n1), dec(n2), ...
